@@ -181,7 +181,8 @@ func (s *grpcServer) FetchBlob(ctx context.Context, req *asset.FetchBlobRequest)
 			}, nil
 		}
 
-		if translateGRPCErrCodeFromClient(err) == codes.ResourceExhausted {
+		if translateGRPCErrCodeFromClient(err) == codes.ResourceExhausted ||
+			gRPCErrCode(err, codes.Unknown) == codes.ResourceExhausted {
 			return &resourceExhaustedResponse, nil
 		}
 
